@@ -15,8 +15,8 @@ T1 == { Node(k, <<a>>) : k \in Conn, a \in T0 } \cup { Node(k, <<a, b>>) : k \in
 T1wide == { Node(k, <<a, b, c>>) : k \in Conn, a \in T0, b \in T0, c \in T0 }
 T01 == T0 \cup T1
 T2 == { Node(k, <<a>>) : k \in Conn, a \in T1 } \cup { Node(k, <<a, b>>) : k \in Conn, a \in T01, b \in T01 }
-Classes == {"atom", "neg", "and2", "or2", "cond", "ncond", "pand"}
-ClassChoices == { <<"atom", "atom", "atom">>, <<"and2", "or2", "cond">>, <<"or2", "cond", "and2">>, <<"cond", "neg", "or2">>, <<"neg", "and2", "atom">>, <<"ncond", "atom", "or2">>, <<"and2", "ncond", "ncond">>, <<"pand", "atom", "pand">>, <<"or2", "pand", "neg">> }
+Classes == {"atom", "neg", "and2", "or2", "cond", "ncond", "pand", "npand", "condbs"}
+ClassChoices == { <<"atom", "atom", "atom">>, <<"and2", "or2", "cond">>, <<"or2", "cond", "and2">>, <<"cond", "neg", "or2">>, <<"neg", "and2", "atom">>, <<"ncond", "atom", "or2">>, <<"and2", "ncond", "ncond">>, <<"pand", "atom", "pand">>, <<"or2", "pand", "neg">>, <<"npand", "atom", "cond">>, <<"condbs", "npand", "atom">>, <<"atom", "condbs", "or2">> }
 \* abstract clause texts of each class (identifiers a_i, b_i, c_i)
 Nm(x, i) == Id(IF i = 1 THEN x \o "1" ELSE IF i = 2 THEN x \o "2" ELSE x \o "3")
 ClauseToks(c, i) == CASE c = "atom" -> <<Nm("a", i)>>
@@ -24,6 +24,8 @@ ClauseToks(c, i) == CASE c = "atom" -> <<Nm("a", i)>>
                       [] c = "and2" -> <<Nm("a", i), P("&&"), Nm("b", i)>>
                       [] c = "or2" -> <<Nm("a", i), P("||"), Nm("b", i)>>
                       [] c = "ncond" -> <<P("!"), Nm("c", i), P("?"), Nm("a", i), P(":"), Nm("b", i)>>      \* begins with "!" yet its top level is ?:
+                      [] c = "npand" -> <<P("!"), P("("), Nm("a", i), P(")"), P("&&"), P("("), Nm("b", i), P(")")>>   \* "! (" ... ")" yet a conjunction
+                      [] c = "condbs" -> <<Nm("c", i), P("?"), Nm("a", i), P(":"), Nm("b", i)>>     \* a conditional whose text holds a string ending in a backslash
                       [] c = "pand" -> <<P("("), Nm("a", i), P(")"), P("&&"), P("("), Nm("b", i), P(")")>>      \* begins with "(" and ends with ")" yet is not one group
                       [] c = "cond" -> <<Nm("c", i), P("?"), Nm("a", i), P(":"), Nm("b", i)>>
 Clauses(cs) == [i \in 1..3 |-> ClauseToks(cs[i], i)]
